@@ -1,7 +1,7 @@
 """C12: traceparent / id text codecs -- writer/reader tables agree; fixed widths; error discipline."""
 import re
 
-from .core import Prov, has_origin, origin_strs, root_local, result_switches, const_value
+from .core import Prov, discr_cond_edges, has_origin, origin_strs, root_local, result_switches, const_value
 from . import panics
 
 ID = "fastrace::collector::id::"
@@ -120,7 +120,7 @@ def rule_reader_agrees(ctx, facts, rule, table):
                     idx.add(nexts.index(v[2]))
         return idx
     # version
-    eqs = [b for b in fn.calls_re(r"PartialEq(<.*>)?>?::eq$|PartialEq for str>::eq$", cleanup=False)]
+    eqs = [b for b in fn.calls_re(r"PartialEq(<.*>)?>?::(eq|ne)$|PartialEq for str>::(eq|ne)$", cleanup=False)]
     okv = False
     for b in eqs:
         t = fn.term(b)
@@ -128,6 +128,12 @@ def rule_reader_agrees(ctx, facts, rule, table):
         other = [a for a in t["args"] if a["k"] != "const"]
         if lit == ['"%s"' % version] and other and field_index(other[0]) == {0}:
             okv = True
+        # both sides behind references (`version != "00"`): the literal is an origin of one side, field 0 of the other
+        if len(t["args"]) == 2 and not okv:
+            for x, y in ((t["args"][0], t["args"][1]), (t["args"][1], t["args"][0])):
+                xs = prov.of_operand(fn, x)
+                if any(o.kind == "const" and str(o.key) == '"%s"' % version for o in xs) and field_index(y) == {0}:
+                    okv = True
     ctx.check(okv, rule, path, fn.span, "field 0 is compared with the version literal the writer emits (%r)" % version, "",
               "comparisons: %s" % [[a.get("repr") for a in fn.term(b)["args"] if a["k"] == "const"] for b in eqs], extra="version")
     # typed fields
@@ -161,26 +167,31 @@ def rule_reader_agrees(ctx, facts, rule, table):
             any(v[0] == "binop" and v[1] == "BitAnd" and v[2] == 1 for o in src for v in o.via) and \
             any(v[0] == "binop" and v[1] == "Eq" and v[2] == 1 for o in src for v in o.via)
         ctx.check(oks, rule, path, fn.loc(samp[0]), "sampled is bit 0 of the parsed flags byte", "", "origins %s" % origin_strs(src), extra="flags")
-    # fifth field must be None, fields 1-4 Some, otherwise None is returned
-    tup = None
-    for b, blk in enumerate(fn.blocks):
-        for s in blk["stmts"]:
-            if s["k"] == "assign" and s["rv"]["k"] == "agg" and s["rv"].get("tuple") and len(s["rv"]["ops"]) == 5:
-                tup = (b, s)
-    some_edges, fifth_none = 0, False
-    if tup:
-        tl = tup[1]["lhs"]["l"]
-        for sb in range(len(fn.blocks)):
-            info = fn.switch_info(sb)
-            if info and info.get("kind") == "discr" and info["place"]["l"] == tl and len(info["place"]["p"]) == 1:
-                k = int(info["place"]["p"][0][1:])
-                succ_some = {d for _, d, _ in fn.variant_edges(sb, ["Some"])}
-                succ_none = {d for _, d, _ in fn.variant_edges(sb, ["None"])}
-                if k < 4:
-                    some_edges += 1
-                else:
-                    # the parse is reachable only across the None edge of field 4
-                    fifth_none = bool(parses) and fn.guarded(parses, set(fn.variant_edges(sb, ["None"])))
+    # fields 0-3 present and a fifth field absent before anything is parsed -- whatever the shape of the test
+    # (a match on the tuple of the five next() results, `?` on each, is_some()/is_none())
+    def derives_from(k):
+        def pred(pl):
+            src = prov.of_place(fn, pl) if pl.get("p") is not None else set()
+            idx = set()
+            for o in src:
+                for v in o.via:
+                    if v[0] == "call" and v[2] in nexts and v[1].endswith("::next"):
+                        idx.add(nexts.index(v[2]))
+            if not pl["p"] and fn.term(nexts[k]).get("dest", {}).get("l") == pl["l"]:
+                idx.add(k)
+            return idx == {k}
+        return pred
+    some_edges = 0
+    for k in range(4):
+        e = discr_cond_edges(fn, prov, r"Option<&", ["Some"], place_pred=derives_from(k))
+        for sb in result_switches(fn, nexts[k]):
+            e |= set(fn.variant_edges(sb, ["Some"]))
+        if e and parses and fn.guarded(parses, e):
+            some_edges += 1
+    e5 = discr_cond_edges(fn, prov, r"Option<&", ["None"], place_pred=derives_from(4))
+    for sb in result_switches(fn, nexts[4]):
+        e5 |= set(fn.variant_edges(sb, ["None"]))
+    fifth_none = bool(parses) and bool(e5) and fn.guarded(parses, e5)
     ctx.check(some_edges >= 4 and fifth_none, rule, path, fn.span,
               "the ids are parsed only when fields 0-3 are present and a fifth field is absent", "",
               "presence tests: %d, fifth-field-absent guard: %s" % (some_edges, fifth_none), extra="arity")
